@@ -48,3 +48,10 @@ static inline FILE *xfopen(const char *p, const char *m)
 	}
 	return f;
 }
+
+/* hook verif_batch (src/parallel/parallel.c): number of process_msg() calls between two GVT steps; a harness that wants to
+ * choose it defines VERIF_OWN_BATCH before including this header and provides its own definition */
+#if !defined(VERIF_OWN_BATCH) && !defined(VERIF_BATCH_DEFINED)
+#define VERIF_BATCH_DEFINED
+__attribute__((weak)) unsigned verif_batch(unsigned dflt) { return dflt; }
+#endif
